@@ -16,6 +16,14 @@ def main(argv):
     from . import plans
     try:
         core.build_harness()
+        if a.replay and (a.replay.endswith(".ndjson") or a.replay.endswith(".txt")):
+            return replay_trace(a.prop, a.replay)
+        if a.replay and "-chunk-" in a.replay:
+            return subprocess.run([core.HARNESS, "chunk", "--case", a.replay]).returncode
+        if a.replay and "-crash-" in a.replay:
+            return subprocess.run([core.HARNESS, "crash", "--case", a.replay]).returncode
+        if a.replay and "-req-" in a.replay:
+            return replay_req(a.prop, a.replay)
         if a.replay:
             p = subprocess.run([core.HARNESS, "replay", "--file", a.replay,
                                 "--findings", os.path.join(core.VERIF, "known_findings.json")])
@@ -36,3 +44,49 @@ def main(argv):
     except Exception:
         traceback.print_exc()
         return 2
+
+
+def replay_trace(prop, path):
+    """Re-validates a recorded trace (a walk, a concurrent history) with TLC.  The recording cannot be
+    re-executed deterministically; the stored trace is the observed behaviour of the real code."""
+    if path.endswith(".txt"):
+        print(open(path).read()[:3000])
+        print("VIOLATION property=%s replay=%s" % (prop, path))
+        return 1
+    first = open(path).readline()
+    work = Work(prop + ".replay")
+    try:
+        if '"t":"start"' in first:
+            ok, at, _ = core.validate_trace(work, "TraceWalk", path)
+            verdict = "accepted" if ok else "rejected"
+        else:
+            verdict, at, _ = core.validate_conc(work, path)
+        print("replay: trace %s by TLC%s" % (verdict, (" at event %s" % at) if at else ""))
+        if verdict == "rejected":
+            print("VIOLATION property=%s replay=%s" % (prop, path))
+            return 1
+        return 0 if verdict == "accepted" else 2
+    finally:
+        work.close()
+
+
+def replay_req(prop, path):
+    import json as _j
+    p = subprocess.run([core.HARNESS, "fuzzreq", "--one", path], capture_output=True, text=True)
+    if p.returncode != 0:
+        print(p.stderr[-2000:])
+        print("VIOLATION property=%s replay=%s" % (prop, path))
+        return 1
+    ob = _j.loads(p.stdout.strip().splitlines()[-1])
+    work = Work(prop + ".replay")
+    try:
+        tr = work.path("one.ndjson")
+        open(tr, "w").write(_j.dumps(ob) + "\n")
+        ok, at, _ = core.validate_trace(work, "TraceReq", tr)
+        print("replay: observation", _j.dumps(ob)[:400], "->", "accepted" if ok else "rejected")
+        if not ok:
+            print("VIOLATION property=%s replay=%s" % (prop, path))
+            return 1
+        return 0
+    finally:
+        work.close()
